@@ -165,9 +165,6 @@ func c13Expect(c c13Case) c13Model {
 	if c.Param == "#" && (c.Op == "#" || c.Op == "##" || (c.Op == "-" || c.Op == "?") && len(c.Word) == 0) {
 		m.Skip = "${#-} ${#?} ${##} read as string lengths"
 	}
-	if c.Param == "!" && c.NoUnset {
-		m.Skip = "nounset with $! (shells disagree)"
-	}
 	// the operator word
 	var wsegs []ref.Seg
 	wtext := ""
